@@ -27,6 +27,9 @@ def main():
     open(f'{hw}/Cargo.toml', 'w').write(ct)
     env = dict(os.environ); env.update({'CARGO_TARGET_DIR': tgt, 'CARGO_NET_OFFLINE': 'true', 'RUSTFLAGS': '--cfg kahflane_turdb_verif'})
     for mid in ids:
+        override = None
+        if ':' in mid:
+            mid, override = mid.split(':', 1)  # <mutant>:<check to run instead of the property's own>
         src = f'/tmp/mutants/{mid}'; dst = f'{V}/seeded/{mid}'
         os.makedirs(dst, exist_ok=True)
         for f in os.listdir(src):
@@ -38,7 +41,7 @@ def main():
         except Exception: meta = {}
         if 'author' not in meta:
             meta = {'id': mid, 'property': author.get('property', mid.split('-')[0]), 'author': author}
-        prop = meta['property']
+        prop = override or meta['property']
         patch = os.path.join(dst, 'patch.diff')
         sh(['git', 'checkout', '--', '.'], cwd=repo)
         rc, out = sh(['git', 'apply', patch], cwd=repo)
